@@ -67,7 +67,7 @@ PROPS = {
         theorems=['C09_exact', 'C09_upper', 'C09_map', 'C09_set', 'C09_ref'],
         assumptions=['no Mutex/RwLock is poisoned (DESIGN.md 9.4)']),
     'C10': dict(
-        comps=['res', 'atomic', 'keyset', 'evict_order'],
+        comps=['res_class', 'atomic', 'keyset', 'evict_order'],
         ops=INS,
         theorems=['C10_insert', 'C10_try_insert'],
     ),
